@@ -13,6 +13,8 @@ VARIANT = "deflt-chk"
 SPEC_RE = re.compile(r"^(?:(?P<fill>.)?(?P<align>[<>=^]))?(?P<sign>[-+ ])?(?P<z>z)?(?P<alt>#)?(?P<zero>0)?(?P<width>\d+)?(?P<group>[_,])?(?:\.(?P<prec>\d+))?(?P<type>[bcdeEfFgGnosxX%])?$", re.S)
 
 INTS = [0, 1, -1, 7, 10, 255, -255, 1000, 1234567, -1234567, 10 ** 20, -10 ** 30, 2 ** 64, 97, 0x10FFFF, 0x110000, -5, 123456789012345678901234567890]
+# machine-word boundaries, both signs (i8 .. i128): where a fast path for small integers would end
+INTS += [sgn * (2 ** k + d) for k in (7, 8, 15, 16, 31, 32, 63, 64, 127, 128) for d in (-1, 0, 1) for sgn in (1, -1)]
 FLOATS = [0.0, -0.0, 0.5, 1.0, -1.0, 1234.5678, -1234.5678, 1e-7, 1e16, 1e100, 123456789.123, 0.1, 2.5, 1e-5, 0.0001, 999999.5, 1e15, 12345678901234567.0,
           float("inf"), float("-inf"), float("nan")]
 # NaNs with the sign bit set / with payloads (Python never prints a sign for them unless asked)
